@@ -2,7 +2,7 @@
    Property theorems only; proofs are in proofs/ReprProofs.v and proofs/NodeProofs.v. *)
 From Coq Require Import List NArith Bool Arith.
 Import ListNotations.
-From PV Require Import Regex Base AstDefs AstSpec AstImpl PyRepr NodeModel NodeProofs ReprProofs.
+From PV Require Import Regex Base AstDefs AstSpec AstImpl PyRepr PyEval NodeModel NodeProofs ReprProofs ReprRoundtrip.
 
 Theorem C15_slots_cover_init :
   forallb (fun ci => list_str_eqb (firstn (length (ci_slots ci) - 2) (ci_slots ci) ++ [s_coord]) (ci_params ci)) ast_impl = true.
@@ -25,3 +25,10 @@ Print Assumptions C15_init_assigns_every_slot.
 Theorem C15_repr_str_no_newline : forall pr s, ~ In 10%N (py_repr_with pr s).
 Proof. exact repr_str_no_newline. Qed.
 Print Assumptions C15_repr_str_no_newline.
+
+(* eval(repr(s)) = s for every Python string (code points below 2^32) and every printability oracle;
+   the text after the literal is left untouched *)
+Theorem C15_unrepr_repr_str : forall pr s rest, Forall (fun c => (c < 4294967296)%N) s ->
+  unrepr_str (py_repr_with pr s ++ rest) = Some (s, rest).
+Proof. exact unrepr_repr_str. Qed.
+Print Assumptions C15_unrepr_repr_str.
